@@ -151,6 +151,11 @@ fn rand_value(rng: &mut Rng, depth: usize, key: bool) -> SValue {
                             _ => SValue::new("Struct", "", fields),
                         }
                     }
+                    3 => match i {
+                        0 => SValue::leaf("B", "false"),
+                        1 => SValue::leaf("UV", ""),
+                        _ => SValue::new("Some", "", vec![SValue::leaf("I", &(i + 200).to_string())]),
+                    },
                     _ => SValue::leaf("S", keys[i]),
                 };
                 xs.push(k);
